@@ -613,6 +613,15 @@ int main(int argc, char **argv) {
 							addx("dkg", n, t, {f}, md, "S" + tag, -1, (long)c, (long)f, true, 0);
 						}
 						if (n == 4 && (A.thorough() || c == t + 1)) addx("cgjkr", n, t, {f}, m, "W" + tag, -1, (long)c, (long)f, true, 0);
+						// wrong share to <= t victims + correct public answer (the dealer stays qualified) in each of the three sharings of the
+						// CGJKR protocols: first Joint-RVSS (x) and second Joint-RVSS (d) of Generate, Joint-ZVSS of Refresh (message pairs 0, 2, 4)
+						if (c <= t && 3 * t < n && (n == 4 || A.thorough())) {
+							const char *nm[3] = { "Wx", "Wd", "Wz" };
+							for (size_t b = 0; b < 3; b++) {
+								Script wb; wb.wrong = subs[k]; wb.pair_base = 2 * b; std::map<size_t, Script> mb; mb[f] = wb;
+								addx("cgjkr", n, t, {f}, mb, nm[b] + tag, -1, (long)c, b == 0 ? (long)f : -1, true, 0);
+							}
+						}
 					}
 					// D: a second faulty party adds a false complaint against f
 					if (t >= 2 && k == 0 && c <= t) {
